@@ -82,7 +82,64 @@ def build(C, opt):
     from jinns.validation._validation import AbstractValidationModule, ValidationLoss
 
     npts, b = opt["npts"], opt["b"]
-    nobs, bo = opt.get("nobs", 4), b
+    # loss kind: "ode" (DataGeneratorODE + LossODE), "statio" (2-D CubicMeshPDEStatio + LossPDEStatio: the version is carried by a
+    # Dirichlet boundary term on the four facets, border batch size = b as a parameter batch requires), "nonstatio" (1-D CubicMeshPDENonStatio, cartesian product, + LossPDENonStatio: a served row is the
+    # pair (time id, point id) = id_t * npts + id_x)
+    lkind = opt.get("lkind", "ode")
+    ntp, bt = (opt.get("ntp", 2), opt.get("bt", 1)) if lkind == "nonstatio" else (1, 1)
+    B = b * bt                                  # rows of one dynamic-loss batch (= required size of the auxiliary batches)
+    nobs, bo = (opt.get("nobs", 4), b) if lkind != "nonstatio" else (npts * ntp, B)
+    key = jax.random.PRNGKey(opt["seed"])
+    if lkind == "ode":
+        data = jinns.data.DataGeneratorODE(key, npts, 0.0, 1.0, b, method="grid")
+        GT, GX = jnp.sort(data.times), None
+    elif lkind == "statio":
+        data = jinns.data.CubicMeshPDEStatio(key=key, n=npts, nb=4 * b, omega_batch_size=b, omega_border_batch_size=b, dim=2,
+                                             min_pts=(0.0, 0.0), max_pts=(1.0, 1.0), method="uniform")
+        GT, GX = None, jnp.asarray(data.omega)          # identity of a point = its row in the initial store
+    else:
+        data = jinns.data.CubicMeshPDENonStatio(key=key, n=npts, nb=None, nt=ntp, omega_batch_size=b, omega_border_batch_size=None,
+                                                temporal_batch_size=bt, dim=1, min_pts=(0.0,), max_pts=(1.0,), tmin=0.0, tmax=1.0,
+                                                method="grid", cartesian_product=True)
+        GT, GX = jnp.sort(data.times), jnp.sort(data.omega[:, 0])
+    GTn, GXn = (None if GT is None else np.asarray(GT)), (None if GX is None else np.asarray(GX))
+
+    def near(G, v):
+        return jnp.argmin(jnp.abs(G - v))
+
+    def ident(z):       # identity of an input row of the network
+        if lkind == "ode":
+            return jnp.round(z[0] * npts).astype(int)        # grid times k / npts (the validation observations use k >= npts too)
+        if lkind == "statio":
+            return jnp.argmin(jnp.sum((GX - z[None, :]) ** 2, axis=1))
+        return near(GT, z[0]) * npts + near(GX, z[1])
+
+    def ids_rows(rows):     # numpy side: identities of input rows (t), (x) or (t, x)
+        out = []
+        for r in np.asarray(rows, dtype=np.float64).reshape(len(rows), -1):
+            if lkind == "ode":
+                out.append(int(round(float(r[0]) * npts)))
+            elif lkind == "statio":
+                out.append(int(np.argmin(np.sum((GXn - r[None, :]) ** 2, axis=1))))
+            else:
+                out.append(int(np.argmin(np.abs(GTn - r[0]))) * npts + int(np.argmin(np.abs(GXn - r[1]))))
+        return sorted(out)
+
+    def ids_of_batch(bt_):
+        if lkind == "ode":
+            return ids_rows(np.asarray(bt_.temporal_batch).reshape(-1, 1))
+        if lkind == "statio":
+            return ids_rows(bt_.inside_batch)
+        return ids_rows(bt_.times_x_inside_batch)
+
+    def gen_state(g):
+        if lkind == "ode":
+            return dict(cur=int(g.curr_time_idx), order=[int(round(float(t) * npts)) for t in np.asarray(g.times)])
+        if lkind == "statio":
+            return dict(cur=int(g.curr_omega_idx), order=[int(np.argmin(np.sum((GXn - x[None, :]) ** 2, axis=1))) for x in np.asarray(g.omega)])
+        ox = [int(np.argmin(np.abs(GXn - float(x)))) for x in np.asarray(g.omega)[:, 0]]
+        ot = [100 + int(np.argmin(np.abs(GTn - float(t)))) for t in np.asarray(g.times)]
+        return dict(cur=int(g.curr_omega_idx) * 1000 + int(g.curr_time_idx), order=ox + ot)
     fault, origin = C["fault"], C["origin"]
     # partial: the trained leaves have TWO entries (both carry the version) and an injected gradient / update fault makes
     # only the second entry NaN - "a NaN parameter" is any NaN entry, not a leaf that is NaN throughout
@@ -93,8 +150,7 @@ def build(C, opt):
         w: jax.Array
 
         def __call__(self, t):
-            idx = jnp.round(t[0] * npts).astype(int)
-            return jnp.stack([self.w[0], jnp.sqrt(POW4[idx])])
+            return jnp.stack([self.w[0], jnp.sqrt(POW4[ident(t)])])
 
     def make_poison(k):
         @jax.custom_vjp
@@ -112,17 +168,17 @@ def build(C, opt):
 
     poison = make_poison(fault)
 
-    u = PINN(mlp=Net(jnp.array([W0, W0] if partial else [W0])), slice_solution=jnp.s_[:], eq_type="ODE", input_transform=lambda i, p: i,
+    u = PINN(mlp=Net(jnp.array([W0, W0] if partial else [W0])), slice_solution=jnp.s_[:],
+             eq_type={"ode": "ODE", "statio": "statio_PDE", "nonstatio": "nonstatio_PDE"}[lkind], input_transform=lambda i, p: i,
              output_transform=lambda i, o, p: o)
 
-    class Eq(ODE):
-        def equation(self, t, u, params):
+    class _Res:
+        def residual(self, out, params):
             th = params.eq_params["theta"]
             th_rest = None
             if partial:
                 th, th_rest = th[0], th[1]
             ver = jax.lax.stop_gradient(jnp.round(TH0 - th))
-            out = u(t, params)
             w = out[0]
             r = out[1]  # 2^id(t)
             if origin == "loss":
@@ -140,20 +196,46 @@ def build(C, opt):
             nu = params.eq_params["nu"]  # optional batched parameter: 2^(8+k) or 0
             return jnp.stack([r + 0.0 * th + 0.0 * w, jnp.squeeze(nu) + 0.0 * r])
 
+    if lkind == "ode":
+        class Eq(_Res, ODE):
+            def equation(self, t, u, params):
+                return self.residual(u(t, params), params)
+    elif lkind == "statio":
+        class Eq(_Res, jinns.loss.PDEStatio):
+            def equation(self, x, u, params):
+                return self.residual(u(x, params), params)
+    else:
+        class Eq(_Res, jinns.loss.PDENonStatio):
+            def equation(self, t, x, u, params):
+                return self.residual(u(t, x, params), params)
+
     params = jinns.parameters.Params(nn_params=u.init_params(), eq_params={"theta": jnp.array([TH0, TH0] if partial else TH0), "nu": jnp.array(0.0)})
     # resumed runs start from a later version
     v0 = C.get("v0", 0)
     params = jax.tree.map(lambda x: x, params)
     params = eqx.tree_at(lambda p: (p.nn_params.w, p.eq_params["theta"]), params,
                          (jnp.array([W0 - v0] * (2 if partial else 1)), jnp.array([TH0 - v0] * 2 if partial else TH0 - v0)))
-    dk = jinns.parameters.DerivativeKeysODE.from_str(params=params, dyn_loss="both", initial_condition="nn_params",
-                                                     observations="nn_params")
     import warnings
     warnings.simplefilter("ignore")
-    loss = jinns.loss.LossODE(u=u, dynamic_loss=Eq(Tmax=1), initial_condition=(0.0, jnp.array([W0 + 1.0, 1.0])),
-                              derivative_keys=dk, obs_slice=jnp.s_[1:2], params=params)
-    key = jax.random.PRNGKey(opt["seed"])
-    data = jinns.data.DataGeneratorODE(key, npts, 0.0, 1.0, b, method="grid")
+    if lkind == "ode":
+        dk = jinns.parameters.DerivativeKeysODE.from_str(params=params, dyn_loss="both", initial_condition="nn_params",
+                                                         observations="nn_params")
+        loss = jinns.loss.LossODE(u=u, dynamic_loss=Eq(Tmax=1), initial_condition=(0.0, jnp.array([W0 + 1.0, 1.0])),
+                                  derivative_keys=dk, obs_slice=jnp.s_[1:2], params=params)
+    elif lkind == "statio":
+        # version term: Dirichlet condition on component 0, mean over the border batch of each of the four facets: 4 (v + 1)^2
+        dk = jinns.parameters.DerivativeKeysPDEStatio.from_str(params=params, dyn_loss="both", boundary_loss="nn_params",
+                                                               observations="nn_params")
+        loss = jinns.loss.LossPDEStatio(u=u, dynamic_loss=Eq(Tmax=1), omega_boundary_fun=lambda dx: jnp.array([W0 + 1.0]),
+                                        omega_boundary_condition="dirichlet", omega_boundary_dim=jnp.s_[0:1],
+                                        derivative_keys=dk, obs_slice=jnp.s_[1:2], params=params)
+    else:
+        # version term: initial condition u(0, x) = (W0 + 1, 2^id(0, x)): (v + 1)^2
+        dk = jinns.parameters.DerivativeKeysPDENonStatio.from_str(params=params, dyn_loss="both", initial_condition="nn_params",
+                                                                  observations="nn_params")
+        loss = jinns.loss.LossPDENonStatio(u=u, dynamic_loss=Eq(Tmax=1),
+                                           initial_condition_fun=lambda x: jnp.stack([W0 + 1.0, jnp.sqrt(POW4[near(GX, x[0])])]),
+                                           derivative_keys=dk, obs_slice=jnp.s_[1:2], params=params)
 
     aux = opt.get("aux", "none")
     param_data = obs_data = None
@@ -161,10 +243,16 @@ def build(C, opt):
         # NOTE user_data is a *static* (metadata) field of DataGeneratorParameter: two generators holding different
         # array objects cannot be compared by jit's cache lookup (ValueError in JAX).  One table object per size is
         # shared by all scenarios of a worker process so that the comparison short-cuts on identity.
-        tab = _TAB.setdefault(npts, jnp.array([2.0 ** (8 + k) for k in range(npts)]))
-        param_data = jinns.data.DataGeneratorParameter(jax.random.PRNGKey(opt["seed"] + 1), npts, b, user_data={"nu": tab})
+        npar = max(npts, B)
+        tab = _TAB.setdefault(npar, jnp.array([2.0 ** (8 + k) for k in range(npar)]))
+        param_data = jinns.data.DataGeneratorParameter(jax.random.PRNGKey(opt["seed"] + 1), npar, B, user_data={"nu": tab})
     if aux in ("obs", "both"):
-        pin = (jnp.arange(nobs) / npts)[:, None]  # observed at grid times 0..nobs-1
+        if lkind == "ode":
+            pin = GT[:nobs][:, None]                # observed at the first nobs grid times / points: identities 0..nobs-1
+        elif lkind == "statio":
+            pin = GX[:nobs]
+        else:
+            pin = jnp.stack([jnp.repeat(GT, npts), jnp.tile(GX, ntp)], axis=1)      # every (time, point) pair: identities 0..ntp*npts-1
         obs_data = jinns.data.DataGeneratorObservations(jax.random.PRNGKey(opt["seed"] + 2), bo, pin, jnp.zeros((nobs, 1)))
 
     # ---- optimizer
@@ -266,8 +354,9 @@ def build(C, opt):
                            tracked_params=tp, param_data=param_data, obs_data=obs_data, validation=validation, verbose=False,
                            obs_batch_sharding=shard)
 
-    return dict(run=run, data=data, param_data=param_data, obs_data=obs_data, params=params, val_ref=val_ref, npts=npts, b=b,
-                nobs=nobs, nv=npts, bv=opt.get("bval", 4), oname=oname)
+    return dict(run=run, data=data, param_data=param_data, obs_data=obs_data, params=params, val_ref=val_ref, npts=npts, b=b, B=B, bo=bo,
+                nobs=nobs, nv=npts, bv=opt.get("bval", 4), oname=oname, lkind=lkind, ids_of_batch=ids_of_batch, ids_rows=ids_rows,
+                gen_state=gen_state)
 
 
 def reference_draws(P, count, data=None):
@@ -277,15 +366,15 @@ def reference_draws(P, count, data=None):
     g, gp, go = (P["data"] if data is None else data), P["param_data"], P["obs_data"]
     for _ in range(count):
         g, bt = g.get_batch()
-        d = dict(t=_ids_of_times(bt.temporal_batch, P["npts"]), p=[], o=[])
+        d = dict(t=P["ids_of_batch"](bt), p=[], o=[])
         if gp is not None:
             gp, pb = gp.get_batch()
             d["p"] = sorted(int(round(math.log2(float(v)))) - 8 for v in np.asarray(pb["nu"]).ravel())
         if go is not None:
             go, ob = go.get_batch()
-            d["o"] = _ids_of_times(ob["pinn_in"], P["npts"])
+            d["o"] = P["ids_rows"](ob["pinn_in"])
         out.append(d)
-        states.append(dict(cur=int(g.curr_time_idx), order=[int(round(float(t) * P["npts"])) for t in np.asarray(g.times)]))
+        states.append(P["gen_state"](g))
     return out, states
 
 
@@ -305,12 +394,18 @@ def project(P, C, out, n):
     obs = dict(ok=True)
     total = np.asarray(total, dtype=np.float64)
     dyn = np.asarray(terms["dyn_loss"], dtype=np.float64)
-    ic = np.asarray(terms["initial_condition"], dtype=np.float64)
+    lk = P.get("lkind", "ode")
+    # the term that carries the parameter version: initial condition (v+1)^2, or - stationary - the Dirichlet term 4 (v+1)^2
+    vname, vscale = ("boundary_loss", 4.0) if lk == "statio" else ("initial_condition", 1.0)
+    ic = np.asarray(terms[vname], dtype=np.float64) / vscale
     ob = np.asarray(terms["observations"], dtype=np.float64)
-    obs["len_ok"] = bool(len(total) == n and len(dyn) == n and len(ic) == n and len(ob) == n)
+    allterms = {k_: np.asarray(v_, dtype=np.float64) for k_, v_ in terms.items()}
+    tsum = sum(allterms.values())
+    obs["len_ok"] = bool(len(total) == n and all(len(v_) == n for v_ in allterms.values()))
+    B, bo = P.get("B", b), P.get("bo", b)
     hist = []
     for k in range(len(total)):
-        if total[k] == 0.0 and dyn[k] == 0.0 and ic[k] == 0.0 and ob[k] == 0.0:
+        if total[k] == 0.0 and all(v_[k] == 0.0 for v_ in allterms.values()):
             hist.append(dict(ver=UNTOUCHED, t=[], p=[], o=[], nan=False, sum_ok=True))
             continue
         if math.isnan(dyn[k]):
@@ -319,13 +414,13 @@ def project(P, C, out, n):
             continue
         r = math.sqrt(ic[k])
         ver = (int(r) - 1 if r == int(r) else BAD) if decoded else 0
-        m = _dec_mask(dyn[k], b, 16)
-        mo = _dec_mask(ob[k], b, 8)
+        m = _dec_mask(dyn[k], B, 16)
+        mo = _dec_mask(ob[k], bo, 8)
         if m is None or mo is None:
             hist.append(dict(ver=BAD, t=[], p=[], o=[], nan=False, sum_ok=False))
             continue
         hist.append(dict(ver=ver, t=[i for i in m if i < 8], p=[i - 8 for i in m if i >= 8], o=mo, nan=False,
-                         sum_ok=bool(total[k] == dyn[k] + ic[k] + ob[k]) if decoded else bool(abs(total[k] - (dyn[k] + ic[k] + ob[k])) <= 1e-9 * abs(total[k]))))
+                         sum_ok=bool(total[k] == tsum[k]) if decoded else bool(abs(total[k] - tsum[k]) <= 1e-9 * abs(total[k]))))
     obs["hist"] = hist
     vw, vt = _dec_all(params.nn_params.w, W0), _dec_all(params.eq_params["theta"], TH0)
     obs["params"] = (vw if vw == vt else BAD) if decoded else 0
@@ -353,8 +448,8 @@ def project(P, C, out, n):
         else:
             obs["crit"] = [NAN if math.isnan(x) else (UNTOUCHED if x == 0.0 else (int(x * P["bv"]) if (x * P["bv"]) == int(x * P["bv"]) else BAD)) for x in cv]
         obs["best_nn"], obs["best_eq"] = _dec_all(best.nn_params.w, W0), _dec_all(best.eq_params["theta"], TH0)
-    obs["gen_cur"] = int(gen.curr_time_idx)
-    obs["gen_order"] = [int(round(float(t) * npts)) for t in np.asarray(gen.times)]
+    gs = P["gen_state"](gen)
+    obs["gen_cur"], obs["gen_order"] = gs["cur"], gs["order"]
     return obs
 
 
